@@ -43,6 +43,8 @@ CLAIMS = {
  "C16": ("proof", "Theorems: KeysAdded-KeysDeleted = keys held and WeightAdded-WeightRemoved = total (mod 2^64) at every reachable state; hits+misses grows by the lookups of each event; KeysRejected counts exactly admission refusals; hit ratio = hits/(hits+misses), zero only without hits. " + TIE, TRUST, "Coq invariant proof + differential correspondence"),
  "C17": ("proof", "Theorems: from a state satisfying the core invariant, a valid event outside four identified classes neither panics in the caller nor kills the worker, sweeper or consumer (valid_calls_never_panic), along whole runs (valid_runs_never_panic), and the cache keeps serving (still_serves); the four classes (remove-TTL on a small weight, TTL overflow, UpdateWeight overflow, upsert-as-put without value) are proved witnesses / documented preconditions. " + TIE + " Boundary-biased generators: weights up to i64::MAX, TTL up to Duration::MAX, counters 1.., queue/pool/buffer 1; the model must predict a panic exactly where the implementation panics.",
          "partial: covers the panic sites the model represents (assert!, unwrap/expect, index operations, i64 overflow under the debug profile, SystemTime addition); allocation failure, thread spawn failure and panics inside dependencies are not modelled. " + TRUST, "Coq proof (case analysis under the invariant) + differential correspondence"),
+ "C18": ("proof", "Theorems about a generic system of threads with ranked locks and bounded queues (Locks.v): well-formedness (ordered acquisition, at most one instance per class, blocking sends with nothing held, a dedicated consumer loop per queue) is preserved by every step, and in a well-formed state some thread can always step while any thread is mid-call (ordered_locking_progress); the table of CacheD's lock programs satisfies the discipline (decided by vm_compute) so no interleaving of any number of callers with worker, sweeper and consumer deadlocks (cached_no_deadlock); the get_ref re-entrancy exclusion is shown to violate the discipline and to self-deadlock. Tied to the code by a lock tracer (a scope guard next to every real guard): every nested acquisition observed during schedules and multi-threaded stress runs must be an edge of the model's table; a watchdog searches for real hangs.",
+         "partial: lock and queue wait cycles at the modelled granularity; lock internals, waker code, OS scheduling not modelled; RW locks treated as exclusive; the lock-program table is hand-written and tied to the code only through the tracer scopes (a change that moves a real guard without its tracer scope is seen only by the stress watchdog). " + TRUST, "Coq proof (ordered locking + queue consumers => progress) + lock tracer + stress watchdog"),
 }
 
 checks = []
